@@ -54,6 +54,9 @@ def corpus():
                 for hasarea in ((0, 1) if not raster else (0,)):
                     out.append({"k": 1201, "args": [[raster, cache, hasarea], [x for p in ops2 for x in p]],
                                 "call": {"ds": net, "seed": 7}, "group": "corpus"})
+    # known finding F12: the node areas of a 1-D network object do not survive dump / load (this one case probes it; in every
+    # other case the reference object after a load is built without areas, which is what the code does)
+    out.append({"k": 1201, "args": [[0, 1, 1], [20, 0]], "call": {"ds": ds, "seed": 7, "probe_dumpload": 1}, "group": "corpus-dumpload-area"})
     return out
 
 
@@ -248,15 +251,22 @@ def impl(case):
             d = os.path.join(CACHE, "c12")
             os.makedirs(d, exist_ok=True)
             fn = os.path.join(d, f"obj_{os.getpid()}.pkl")
+            probe = case["call"].get("probe_dumpload") and not raster and area_on[0]
+            upa0 = np.asarray(obj.upstream_area()).copy() if probe else None
             obj.dump(fn)
             obj = (pyflwdir.FlwdirRaster if raster else Flwdir).load(fn)
             os.remove(fn)
+            if probe and not np.array_equal(upa0, np.asarray(obj.upstream_area())):
+                return out + [[-7]]
             area_on[0] = False
         out.append(occ(obj) + [flag])
     return out
 
 
 def oracle(case, out):
+    if out and out[-1] == [-7]:
+        return ("dumpload:vector-area-lost", f"Flwdir(idxs_ds={case['call']['ds']}, area=a): upstream_area() before dump differs from "
+                "upstream_area() of the loaded object (the node areas are not part of the dumped state)")
     if out and out[-1] and out[-1][0] == -5:
         c, arg = out[-1][1], out[-1][2]
         codes = case["args"][1]
